@@ -356,7 +356,7 @@ Definition prop_ok_wrapped (body trace : list N) : bool :=
   end.
 
 (* ======================= 9603: real sockets: what accept / reject do to a connection ==========
-   case body: transport (0 tcp, 1 websocket), then per connection (kind, d1, d2):
+   case body: transport (0 tcp, 1 websocket, 2 quic), then per connection (kind, d1, d2):
      kind 0 inbound (remote node dials):  d1: 1 accept_pending / 0 reject_pending; d2: 1 accept / 0 reject
      kind 1 outbound (local dial):        d2 likewise
      kind 2 bare inbound socket:          reject_pending
@@ -377,8 +377,11 @@ Definition sock_expect (kind d1 d2 : N) : list N :=
 Definition p_sock_conn : parser (N * N * N) :=
   let* k := pN in let* a := pN in let* b := pN in
   if (k <? 3) && (a <? 2) && (b <? 2) && negb ((k =? 2) && negb (a =? 0)) then pret (k, a, b) else pfail.
+(* transport 2 = QUIC (harness built with the quic feature): no bare sockets there *)
 Definition decode_sock (l : list N) : option (N * list (N * N * N)) :=
-  pall (let* tr := pN in let* cs := plist p_sock_conn in if tr <? 2 then pret (tr, cs) else pfail) l.
+  pall (let* tr := pN in let* cs := plist p_sock_conn in
+        if (tr <? 2) || ((tr =? 2) && forallb (fun x : N * N * N => negb (fst (fst x) =? 2)) cs)
+        then pret (tr, cs) else pfail) l.
 
 Definition run_sock (body : list N) : list N :=
   match decode_sock body with
